@@ -161,6 +161,12 @@ class Package:
                 return len(zero) == len(sup) and not callee.decorator_list and bool(callee.args.args) and callee.args.args[0].arg == "self"
 
             def resolve(call):
+                r = resolve0(call)
+                if r is not None and r[0].args.kwarg is not None:
+                    return _without_passthrough_kwarg(self, r[0]), r[1]
+                return r
+
+            def resolve0(call):
                 f = call.func
                 if isinstance(f, ast.Attribute) and isinstance(f.value, ast.Name) and f.value.id in ("self", "cls") and f.attr not in keep:
                     owner, callee = self.resolve(cls, f.attr)
@@ -537,6 +543,29 @@ class Package:
 
 
 _PATHLIKE = {"open", "exists", "mkdir", "read_text", "write_text", "write", "read", "close", "render", "get_template", "list_templates", "resolve", "glob", "unlink"}
+
+
+def _without_passthrough_kwarg(pkg, callee):
+    """`def h(self, xs, **kwargs)` whose only use of `kwargs` is handing it on (`g(x, **kwargs)`) is, for a call that supplies no
+    keyword h does not name, the same function without the parameter and without the `**kwargs` at the inner calls (an empty
+    mapping adds nothing).  A call that DOES supply such a keyword does not bind against the copy (normalize._bind_args) and stays
+    a call.  Any other use of the name leaves the callee as it is (never inlined: normalize._simple_callee)."""
+    import copy
+    cache = pkg.__dict__.setdefault("_dekwarg", {})
+    if id(callee) not in cache:
+        name = callee.args.kwarg.arg
+        passed = {id(k.value) for n in ast.walk(callee) if isinstance(n, ast.Call) for k in n.keywords if k.arg is None and isinstance(k.value, ast.Name) and k.value.id == name}
+        uses = [n for n in ast.walk(callee) if isinstance(n, ast.Name) and n.id == name]
+        if uses and all(id(n) in passed and isinstance(n.ctx, ast.Load) for n in uses):
+            new = copy.deepcopy(callee)
+            new.args.kwarg = None
+            for n in ast.walk(new):
+                if isinstance(n, ast.Call):
+                    n.keywords = [k for k in n.keywords if not (k.arg is None and isinstance(k.value, ast.Name) and k.value.id == name)]
+            cache[id(callee)] = (callee, new)
+        else:
+            cache[id(callee)] = (callee, callee)
+    return cache[id(callee)][1]
 
 
 def _without_setattr(mod):
